@@ -1249,18 +1249,18 @@ class Model:
                 # if it is an interaction with both categoric and numeric terms
                 if categoric and numeric:
                     numeric_set = set(numeric)
-                    numeric_part = ":".join(numeric)
                     if numeric_set not in numeric_group_sets:
                         numeric_group_sets.append(numeric_set)
                         numeric_groups.append({})
+                        # Prevent full encoding when numeric part is present outside
+                        # this numeric-categoric interaction, in whatever order it is written.
+                        # It goes first in the group, under the name of the term it is.
+                        for k_, v_ in components.items():
+                            names = set(v_) if isinstance(v_, dict) else {k_}
+                            kinds = set(v_.values()) if isinstance(v_, dict) else {v_}
+                            if names == numeric_set and kinds == {"numeric"}:
+                                numeric_groups[-1][k_] = []
                     idx = numeric_group_sets.index(numeric_set)
-                    # Prevent full encoding when numeric part is present outside
-                    # this numeric-categoric interaction, in whatever order it is written
-                    for k_, v_ in components.items():
-                        names = set(v_) if isinstance(v_, dict) else {k_}
-                        kinds = set(v_.values()) if isinstance(v_, dict) else {v_}
-                        if names == numeric_set and kinds == {"numeric"}:
-                            numeric_groups[idx][numeric_part] = []
                     numeric_groups[idx][k] = categoric
 
         return [categoric_group] + numeric_groups
